@@ -7,6 +7,7 @@ package main
 import (
 	"go/ast"
 	"go/constant"
+	"go/token"
 	"go/types"
 	"sort"
 	"strings"
@@ -524,4 +525,172 @@ func loopHeaderOf(b *ssa.BasicBlock) *ssa.BasicBlock {
 		}
 	}
 	return best
+}
+
+func init() {
+	reg("C16-R4", "exclusive grants need a sole holder: with two or more shared holders assumed for the row (every comparison of len(sharedLockTable[rid]) with 0/1/2 and every nil test of that slice resolved accordingly) no exclusiveLockTable update is reachable in LockExclusive / LockUpgrade", func(w *World, r *Report) {
+		a := w.A()
+		xt := w.Field("storage/access", "LockManager", "exclusiveLockTable")
+		st := w.Field("storage/access", "LockManager", "sharedLockTable")
+		isSharedArr := func(v ssa.Value) bool {
+			return DependsOn(v, func(x ssa.Value) bool {
+				l, ok := x.(*ssa.Lookup)
+				return ok && fieldLoadOf(l.X, st)
+			})
+		}
+		isLenOfShared := func(v ssa.Value) bool {
+			c, ok := stripConv(v).(*ssa.Call)
+			if !ok {
+				return false
+			}
+			bi, ok := c.Call.Value.(*ssa.Builtin)
+			return ok && bi.Name() == "len" && isSharedArr(c.Call.Args[0])
+		}
+		// truth of (len OP c) under len >= 2; ok=false when undetermined
+		evalLen := func(op token.Token, c int64, lenOnLeft bool) (bool, bool) {
+			if !lenOnLeft { // c OP len  ==  len OP' c
+				switch op {
+				case token.LSS:
+					op = token.GTR
+				case token.GTR:
+					op = token.LSS
+				case token.LEQ:
+					op = token.GEQ
+				case token.GEQ:
+					op = token.LEQ
+				}
+			}
+			switch op {
+			case token.EQL:
+				if c < 2 {
+					return false, true
+				}
+			case token.NEQ:
+				if c < 2 {
+					return true, true
+				}
+			case token.GTR:
+				if c < 2 {
+					return true, true
+				}
+			case token.GEQ:
+				if c <= 2 {
+					return true, true
+				}
+			case token.LSS:
+				if c <= 2 {
+					return false, true
+				}
+			case token.LEQ:
+				if c < 2 {
+					return false, true
+				}
+			}
+			return false, false
+		}
+		assume := func(b *ssa.BasicBlock, succ int) bool {
+			i := blockIf(b)
+			if i == nil {
+				return false
+			}
+			v, neg := condBase(i.Cond)
+			bo, ok := v.(*ssa.BinOp)
+			if !ok {
+				return false
+			}
+			var val, known bool
+			constInt := func(x ssa.Value) (int64, bool) {
+				cv, ok := constOf(x)
+				if !ok || cv.Kind() != constant.Int {
+					return 0, false
+				}
+				iv, ok := constant.Int64Val(cv)
+				return iv, ok
+			}
+			isNil := func(x ssa.Value) bool { c, ok := x.(*ssa.Const); return ok && c.IsNil() }
+			switch {
+			case isLenOfShared(bo.X):
+				if c, ok := constInt(bo.Y); ok {
+					val, known = evalLen(bo.Op, c, true)
+				}
+			case isLenOfShared(bo.Y):
+				if c, ok := constInt(bo.X); ok {
+					val, known = evalLen(bo.Op, c, false)
+				}
+			case (isNil(bo.Y) && isSharedArr(bo.X)) || (isNil(bo.X) && isSharedArr(bo.Y)):
+				if _, isSlice := bo.X.Type().Underlying().(*types.Slice); isSlice || isNil(bo.X) {
+					val, known = bo.Op == token.NEQ, true // the slice is not nil
+				}
+			}
+			if !known {
+				return false
+			}
+			condVal := val != neg
+			if condVal {
+				return succ == 1
+			}
+			return succ == 0
+		}
+		rec := CutWhen(IsCallTo(a.TxnIsRecovery), true)
+		// the comma-ok of the shared-table lookup is true (an entry exists)
+		okTrue := CutWhen(func(v ssa.Value) bool {
+			e, ok := v.(*ssa.Extract)
+			if !ok || e.Index != 1 {
+				return false
+			}
+			l, ok := e.Tuple.(*ssa.Lookup)
+			return ok && fieldLoadOf(l.X, st)
+		}, false)
+		for _, o := range []*types.Func{a.LockExclusive, a.LockUpgrade} {
+			fn := w.SSA(o)
+			n := 0
+			for _, b := range fn.Blocks {
+				for s := range b.Succs {
+					if assume(b, s) {
+						n++
+					}
+				}
+			}
+			r.Floor(o.Name()+" holder-count tests resolved", n, 1)
+			isGrant := func(in ssa.Instruction) bool {
+				mu, ok := in.(*ssa.MapUpdate)
+				return ok && fieldLoadOf(mu.Map, xt)
+			}
+			wit := (&PathQ{Fn: fn, Cut: []EdgeCut{rec, okTrue, assume}, Target: isGrant}).FromEntry()
+			r.Check(wit == nil, o.Name()+":no-exclusive-grant-with-several-shared-holders", "when two or more transactions hold the row shared, no exclusive entry is created", "grant reachable although the holder-count tests say >= 2 holders: "+w.DescribeWitness(fn, wit))
+		}
+	})
+
+	reg("C15-R4", "compaction treats delete-marked rows as occupying space: in every function that shifts the tuple area, the slot-offset fix-up (SetTupleOffsetAtSlot) stays reachable when IsDeleted(size) is assumed true for the slot under inspection (marked rows keep their bytes until commit, so they move with their neighbours)", func(w *World, r *Report) {
+		a := w.A()
+		setOff := w.MethodObj("storage/access", "TablePage", "SetTupleOffsetAtSlot")
+		isDel := w.FuncObj("storage/access", "IsDeleted")
+		n := 0
+		for _, o := range []*types.Func{a.TPUpdate, a.TPApplyDelete} {
+			fn := w.SSA(o)
+			var inLoop []ssa.Instruction
+			for _, s := range sitesCalling(fn, setOff) {
+				if loopHeaderOf(s.Block()) != nil {
+					inLoop = append(inLoop, s)
+				}
+			}
+			if len(inLoop) == 0 {
+				continue
+			}
+			n++
+			// inside the loop: from the loop header, assuming IsDeleted(...) is true wherever it is consulted
+			hdr := loopHeaderOf(inLoop[0].Block())
+			marked := CutWhen(func(v ssa.Value) bool {
+				c, ok := v.(*ssa.Call)
+				if !ok || CalleeObj(c) != isDel {
+					return false
+				}
+				// only calls made inside the loop
+				return loopHeaderOf(c.Block()) == hdr || c.Block() == hdr
+			}, false)
+			wit := (&PathQ{Fn: fn, Cut: []EdgeCut{marked}, Target: func(in ssa.Instruction) bool { return in == inLoop[0] }}).FromAfterPos(hdr)
+			r.Check(wit != nil, "TablePage."+o.Name()+":fixup-covers-delete-marked-rows", "a delete-marked slot still gets its offset fixed when the tuple area moves", "with IsDeleted(size)=true for the inspected slot the fix-up loop of "+o.Name()+" cannot reach SetTupleOffsetAtSlot: rows that are only marked deleted (uncommitted delete) are skipped and come back corrupted when that delete is rolled back")
+		}
+		r.Floor("compaction loops", n, 2)
+	})
 }
